@@ -61,7 +61,7 @@ def cases(draw):
     # the form in which the source is handed over: named (str, Path, bytes), an open file, a file-like object
     # without an OS descriptor, a blob client; for the last two, one case in three lets one of the source's
     # range reads fail (exception, empty or short): the call must then raise or still write the right file
-    form = draw(st.sampled_from(["str", "str", "path", "bytes", "fileobj", "nofd", "nofd", "blob", "blob"]))
+    form = draw(st.sampled_from(["str", "str", "path", "bytes", "fileobj", "nofd", "nofd", "blob", "blob", "relative"]))
     fault = None
     if form in ("nofd", "blob") and draw(st.integers(0, 2)) == 0:
         fault = [draw(st.floats(0, 1, exclude_max=True)), draw(st.sampled_from(["exception", "empty", "short", "exception-service"])),
@@ -119,7 +119,10 @@ def run_case(case, ctx):
             c0.close()
         os.remove(os.path.join(d, "dry.sgz"))
         backend = iomodel.CountingFile(path) if form == "nofd" else iomodel.CountingBlob(path)
-    c = SgzConverter(backend if backend is not None else ops.in_form(path, form, opened), preload=bool(case.get("preload")))
+    if form == "relative":
+        c = ops.open_relative(SgzConverter, path, preload=bool(case.get("preload")))
+    else:
+        c = SgzConverter(backend if backend is not None else ops.in_form(path, form, opened), preload=bool(case.get("preload")))
     faulted = False
     try:
         u = case.get("u", [0.5, 0.5, 0.5])
